@@ -425,8 +425,7 @@ func verifyInputs(initialBasic []int, c []float64, A mat.Matrix, b []float64) er
 			return ErrZeroRow
 		}
 	}
-	// Check that if a column only has zero elements that the respective C vector
-	// is positive (otherwise unbounded). Otherwise return ErrZeroColumn.
+	// Check that no column only has zero elements, otherwise return ErrZeroColumn.
 	for j := 0; j < n; j++ {
 		isZero := true
 		for i := 0; i < m; i++ {
@@ -435,9 +434,9 @@ func verifyInputs(initialBasic []int, c []float64, A mat.Matrix, b []float64) er
 				break
 			}
 		}
-		if isZero && c[j] < 0 {
-			return ErrUnbounded
-		} else if isZero {
+		if isZero {
+			// With a negative cost the program is unbounded if it is
+			// feasible, which is not known here.
 			return ErrZeroColumn
 		}
 	}
